@@ -95,7 +95,7 @@ func init() {
 
 	h.Register(&h.Monitor{
 		ID: "C04",
-		Rule: "geometries from the grammar (nine kinds, EMPTY values, collections nested to depth 4 with EMPTY members at every position; finite coordinates over the full float64 range, weighted towards magnitudes printed in exponent form, -0, subnormals) marshalled and parsed back through wkt.Unmarshal and the 7 typed functions, as produced and in 5 (quick) / 11 (thorough) re-spellings (keyword case, blanks at either end and next to brackets and commas). " +
+		Rule: "geometries from the grammar (nine kinds, EMPTY values, collections nested to depth 4 with EMPTY members at every position; finite coordinates over the full float64 range, weighted towards magnitudes printed in exponent form, -0, subnormals) marshalled and parsed back through wkt.Unmarshal and the 7 typed functions, as produced and in 5 (quick) / 11 (thorough) re-spellings (keyword case, blanks at either end and next to brackets and commas); rings closed by a zero of the other sign, chains of 10001..12000 nested collections. " +
 			"non-trivial = at least one vertex; distinct = hash of the geometry",
 		MinNontrivial: h.Fixed(3000, 250000),
 		Assumptions: []string{
